@@ -11,6 +11,7 @@ ENGINE_CFG = _c03.ENGINE_CFG
 INSTALL = _c03.INSTALL
 HARNESSES = [dict(h) for h in _c03.HARNESSES if h["name"].startswith("exchange")]
 ASSUMPTIONS = _c03.ASSUMPTIONS + ["the acceptance obligations (ids C05.*) are decided inside the same harness runs as C03's; NTS-specific acceptance (unique identifier, S2C key) is decided by C10"]
+SKIP_ASSERT_PREFIXES = ["C03."]   # the offset-accuracy assertions of the shared harnesses are decided by the C03 check
 EXPLANATION = ""
 CLAIMED = True
 LEVEL_TEXT = "Bounded model checking of the real IP client exchange against an adversarial socket (up to 3 arbitrary datagrams of 0..48 bytes from arbitrary sources, arbitrary read errors/flags/stamps): a measurement succeeds only on the basis of a datagram from the queried address whose origin echoes the outstanding request's transmit stamp (or, for an interleaved request, its receive stamp), that is a server-mode v3/v4 packet with known leap status, stratum 1-15 and transmit time not before receive time; at most one request is sent and at most one retry is made; on error no offset is reported and the interleaved state is unchanged."
